@@ -234,7 +234,7 @@ class ProgGen:
             choices += ["index", "index"]
         if "core" in self.features:
             # the fragment of Model/BitSem.lean
-            choices = ["if", "block"] + (["match"] if "match" in self.features else []) + (["cmp", "cmp", "eq", "logic", "logic", "not", "castbool"] if k == "bool" else ["arith", "arith", "arith", "bit", "cast", "shift"] + (["unary"] if signed(ty) else []))
+            choices = ["if", "block"] + (["match"] if "match" in self.features else []) + (["call", "call"] if "helpers" in self.features and any(h["ret"] == ty for h in self.helpers) else []) + (["cmp", "cmp", "eq", "logic", "logic", "not", "castbool"] if k == "bool" else ["arith", "arith", "arith", "bit", "cast", "shift"] + (["unary"] if signed(ty) else []))
         elif k == "bool":
             choices += ["cmp", "cmp", "eq", "logic", "logic", "not", "castbool"]
         elif k == "int":
